@@ -17,7 +17,10 @@ global size_of usize == 8;
 // =====================================================================================================================
 pub struct PathBuf { pub id: u64 }
 pub type Path = PathBuf;
-pub struct FileSystem { pub files: Ghost<Map<PathBuf, Seq<u8>>> }
+// `protected`: an ARBITRARY set of final names that exist when the operation under proof starts (ghost, never assigned): the
+// records "retrievable before the interrupted operation".  `inv` demands that they still exist after every single file-system
+// effect; since it is arbitrary, this holds for the set of all final names present at the start.
+pub struct FileSystem { pub files: Ghost<Map<PathBuf, Seq<u8>>>, pub protected: Ghost<Set<PathBuf>> }
 
 // name schemes (uninterpreted): which paths are FINAL names (a shard `<hash>.mdb`, a cache item `<b64(range,len,crc)>`, a
 // xorb `default.<hash>`), and when a content is complete and consistent with such a name
@@ -44,8 +47,13 @@ pub broadcast proof fn axiom_final_names_not_dotted(p: PathBuf)
 { admit(); }
 
 pub open spec fn inv(fs: FileSystem) -> bool {
-    forall|p: PathBuf| #[trigger] fs.files@.contains_key(p) && is_final(p) ==> consistent(p, fs.files@[p])
+    // every file under a final name is complete and consistent with its name ...
+    &&& forall|p: PathBuf| #[trigger] fs.files@.contains_key(p) && is_final(p) ==> consistent(p, fs.files@[p])
+    // ... and every record that was retrievable before the operation still is (C19, second half)
+    &&& forall|p: PathBuf| #[trigger] fs.protected@.contains(p) ==> is_final(p) && fs.files@.contains_key(p)
 }
+// one file-system effect, or a whole operation: the invariant holds afterwards for the SAME protected set
+pub open spec fn inv_step(old_fs: FileSystem, fs: FileSystem) -> bool { inv(fs) && fs.protected@ == old_fs.protected@ }
 pub open spec fn is_prefix(a: Seq<u8>, b: Seq<u8>) -> bool { a.len() <= b.len() && b.subrange(0, a.len() as int) == a }
 
 // ---- semantic effect of each primitive + proof that its precondition is what keeps `inv` (the stubs are not vacuous) ----
@@ -54,16 +62,18 @@ pub open spec fn eff_rename(fs: Map<PathBuf, Seq<u8>>, from: PathBuf, to: PathBu
     if from == to { fs } else { fs.remove(from).insert(to, fs[from]) }
 }
 pub proof fn lemma_put_keeps_inv(fs: FileSystem, fs2: FileSystem, p: PathBuf, c: Seq<u8>)
-    requires inv(fs), is_final(p) ==> consistent(p, c), fs2.files@ == eff_put(fs.files@, p, c)
+    requires inv(fs), is_final(p) ==> consistent(p, c), fs2.files@ == eff_put(fs.files@, p, c), fs2.protected@ == fs.protected@
     ensures inv(fs2)
 {}
 pub proof fn lemma_rename_keeps_inv(fs: FileSystem, fs2: FileSystem, from: PathBuf, to: PathBuf)
     requires inv(fs), fs.files@.contains_key(from), is_final(to) ==> consistent(to, fs.files@[from]),
-        fs2.files@ == eff_rename(fs.files@, from, to)
+        fs2.files@ == eff_rename(fs.files@, from, to), fs2.protected@ == fs.protected@,
+        // the source name disappears: it must not be one of the records to keep
+        from != to ==> !fs.protected@.contains(from),
     ensures inv(fs2)
 {}
 pub proof fn lemma_remove_keeps_inv(fs: FileSystem, fs2: FileSystem, p: PathBuf)
-    requires inv(fs), fs2.files@ == fs.files@.remove(p)
+    requires inv(fs), fs2.files@ == fs.files@.remove(p), fs2.protected@ == fs.protected@, !fs.protected@.contains(p)
     ensures inv(fs2)
 {}
 
@@ -71,10 +81,14 @@ pub mod io {
     use super::*;
     pub struct Error { pub code: u64 }
     pub type Result<T> = core::result::Result<T, Error>;
-    pub enum ErrorKind { InvalidInput, BrokenPipe, Other }
+    #[derive(PartialEq, Eq)]
+    pub enum ErrorKind { InvalidInput, BrokenPipe, NotFound, AlreadyExists, PermissionDenied, Interrupted, UnexpectedEof, WriteZero, Other }
     impl Error {
         #[verifier::external_body]
         pub fn new(kind: ErrorKind, msg: &str) -> Error { unimplemented!() }
+        // any kind: the model never says why an operation failed
+        #[verifier::external_body]
+        pub fn kind(&self) -> ErrorKind { unimplemented!() }
     }
 }
 
@@ -89,7 +103,7 @@ impl FileWriter {
     pub fn write(&mut self, fs: &mut FileSystem, buf: &[u8]) -> (r: io::Result<usize>)
         requires inv(*old(fs)), !is_final(old(self).path@),
         ensures
-            inv(*final(fs)),
+            inv_step(*old(fs), *final(fs)),
             final(self).path@ == old(self).path@,
             // only the file behind the handle changes
             final(fs).files@ == old(fs).files@.insert(old(self).path@, final(fs).files@[old(self).path@]),
@@ -102,7 +116,7 @@ impl FileWriter {
     pub fn flush(&mut self, fs: &mut FileSystem) -> (r: io::Result<()>)
         requires inv(*old(fs)), !is_final(old(self).path@),
         ensures
-            inv(*final(fs)),
+            inv_step(*old(fs), *final(fs)),
             final(self).path@ == old(self).path@, final(self).written@ == old(self).written@,
             // only the file behind the handle changes
             final(fs).files@ == old(fs).files@.insert(old(self).path@, final(fs).files@[old(self).path@]),
@@ -153,14 +167,17 @@ pub mod fs {
     pub fn rename(fs: &mut FileSystem, from: &PathBuf, to: &PathBuf) -> (r: io::Result<()>)
         requires inv(*old(fs)),
             old(fs).files@.contains_key(*from) && is_final(*to) ==> consistent(*to, old(fs).files@[*from]),
-        ensures inv(*final(fs)),
+            // the name `from` disappears
+            *from != *to ==> !old(fs).protected@.contains(*from),
+        ensures inv_step(*old(fs), *final(fs)),
             r is Ok ==> old(fs).files@.contains_key(*from) && final(fs).files@ == eff_rename(old(fs).files@, *from, *to),
             r is Err ==> final(fs).files@ == old(fs).files@,
     { unimplemented!() }
     #[verifier::external_body]
     pub fn remove_file(fs: &mut FileSystem, p: &PathBuf) -> (r: io::Result<()>)
-        requires inv(*old(fs)),
-        ensures inv(*final(fs)),
+        // unlinking a name: it must not be one of the records that were retrievable before the operation
+        requires inv(*old(fs)), !old(fs).protected@.contains(*p),
+        ensures inv_step(*old(fs), *final(fs)),
             r is Ok ==> final(fs).files@ == old(fs).files@.remove(*p),
             r is Err ==> final(fs).files@ == old(fs).files@,
     { unimplemented!() }
@@ -168,7 +185,7 @@ pub mod fs {
     #[verifier::external_body]
     pub fn set_permissions(fs: &mut FileSystem, p: &PathBuf, perm: Permissions) -> (r: io::Result<()>)
         requires inv(*old(fs)),
-        ensures inv(*final(fs)), final(fs).files@ == old(fs).files@,
+        ensures inv_step(*old(fs), *final(fs)), final(fs).files@ == old(fs).files@,
     { unimplemented!() }
     #[verifier::external_body]
     pub fn metadata(p: &PathBuf) -> io::Result<Metadata> { unimplemented!() }
@@ -176,7 +193,7 @@ pub mod fs {
 #[verifier::external_body]
 pub fn set_file_metadata(fs: &mut FileSystem, p: &PathBuf, metadata: &Metadata, match_owner: bool) -> (r: io::Result<()>)
     requires inv(*old(fs)),
-    ensures inv(*final(fs)), final(fs).files@ == old(fs).files@,
+    ensures inv_step(*old(fs), *final(fs)), final(fs).files@ == old(fs).files@,
 { unimplemented!() }
 // file_utils::create_file: create_dir_all(parent) + OpenOptions::new().create(true).truncate(false).write(true).open(path)
 // (+ chown).  An existing file keeps its content; a new one is empty.  A *new* file under a final name would be an empty
@@ -185,7 +202,7 @@ pub fn set_file_metadata(fs: &mut FileSystem, p: &PathBuf, metadata: &Metadata, 
 pub fn create_file(fs: &mut FileSystem, path: &PathBuf) -> (r: io::Result<File>)
     requires inv(*old(fs)),
         is_final(*path) && !old(fs).files@.contains_key(*path) ==> consistent(*path, Seq::<u8>::empty()),
-    ensures inv(*final(fs)),
+    ensures inv_step(*old(fs), *final(fs)),
         r matches Ok(f) ==> f.path@ == *path && f.written@ == Seq::<u8>::empty()
             && final(fs).files@ == (if old(fs).files@.contains_key(*path) { old(fs).files@ } else { old(fs).files@.insert(*path, Seq::<u8>::empty()) }),
         r is Err ==> final(fs).files@ == old(fs).files@,
@@ -249,6 +266,7 @@ impl SafeFileCreator {
 //@ extract file_utils/src/safe_file_creator.rs in `impl SafeFileCreator` region close
 //@ block `pub fn close(&mut self) -> io::Result<()> {`
 //@ sig `fn close(&mut self, vx_fs: &mut FileSystem) -> (r: io::Result<()>)`
+//@ rules crashfs.R20
 //@ optsubst `writer.flush()` => `writer.flush(vx_fs)` :: explicit file system
 //@ optsubst `fs::rename(&self.temp_path, dest_path)` => `fs::rename(vx_fs, &self.temp_path, dest_path)` :: explicit file system
 //@ optsubst `set_file_metadata(dest_path, metadata, false)` => `set_file_metadata(vx_fs, dest_path, metadata, false)` :: explicit file system
@@ -257,7 +275,7 @@ impl SafeFileCreator {
         requires inv(*old(vx_fs)), old(self).wf(),
             /*@C19*/ old(self).committable(),
         ensures
-            /*@C19*/ inv(*final(vx_fs)),
+            /*@C19*/ inv_step(*old(vx_fs), *final(vx_fs)),
             final(self).wf(), final(self).dest_path == old(self).dest_path, final(self).temp_path == old(self).temp_path,
             // double close / already closed: no file-system effect at all
             /*@C19*/ old(self).writer is None && old(self).dest_path is Some ==> r is Ok && final(vx_fs).files@ == old(vx_fs).files@,
@@ -280,11 +298,12 @@ impl SafeFileCreator {
 //@ extract file_utils/src/safe_file_creator.rs in `impl Write for SafeFileCreator` region write
 //@ block `fn write(&mut self, buf: &[u8]) -> io::Result<usize> {`
 //@ sig `fn write(&mut self, vx_fs: &mut FileSystem, buf: &[u8]) -> (r: io::Result<usize>)`
+//@ rules crashfs.R20
 //@ optsubst `self.writer()?.write(buf)` => `self.writer()?.write(vx_fs, buf)` :: explicit file system
 //@ contract
         requires inv(*old(vx_fs)), old(self).wf(),
         ensures
-            /*@C19*/ inv(*final(vx_fs)),
+            /*@C19*/ inv_step(*old(vx_fs), *final(vx_fs)),
             final(self).wf(), final(self).dest_path == old(self).dest_path, final(self).temp_path == old(self).temp_path,
             final(self).writer is Some == old(self).writer is Some,
             // every byte goes to the temp file; nothing under any other name changes
@@ -301,11 +320,12 @@ impl SafeFileCreator {
 //@ extract file_utils/src/safe_file_creator.rs in `impl Write for SafeFileCreator` region flush
 //@ block `fn flush(&mut self) -> io::Result<()> {`
 //@ sig `fn flush(&mut self, vx_fs: &mut FileSystem) -> (r: io::Result<()>)`
+//@ rules crashfs.R20
 //@ optsubst `self.writer()?.flush()` => `self.writer()?.flush(vx_fs)` :: explicit file system
 //@ contract
         requires inv(*old(vx_fs)), old(self).wf(),
         ensures
-            /*@C19*/ inv(*final(vx_fs)),
+            /*@C19*/ inv_step(*old(vx_fs), *final(vx_fs)),
             final(self).wf(), final(self).dest_path == old(self).dest_path, final(self).temp_path == old(self).temp_path,
             final(self).writer is Some == old(self).writer is Some,
             old(self).writer is Some ==> final(self).written() == old(self).written(),
@@ -318,11 +338,12 @@ impl SafeFileCreator {
 //@ extract file_utils/src/safe_file_creator.rs in `impl SafeFileCreator` region new
 //@ block `pub fn new<P: AsRef<Path>>(dest_path: P) -> io::Result<Self> {`
 //@ sig `fn new(vx_fs: &mut FileSystem, dest_path: &PathBuf) -> (r: io::Result<SafeFileCreator>)`
+//@ rules crashfs.R20
 //@ optsubst `create_file(&temp_path)` => `create_file(vx_fs, &temp_path)` :: explicit file system
 //@ contract
         requires inv(*old(vx_fs)),
         ensures
-            /*@C19*/ inv(*final(vx_fs)),
+            /*@C19*/ inv_step(*old(vx_fs), *final(vx_fs)),
             match r {
                 Ok(c) => c.wf() && c.dest_path == Some(*dest_path) && c.writer is Some && c.written() == Seq::<u8>::empty()
                     // the only file-system effect: an empty file under the (dotted, non-final) temp name
@@ -336,11 +357,12 @@ impl SafeFileCreator {
 //@ extract file_utils/src/safe_file_creator.rs in `impl SafeFileCreator` region new_unnamed
 //@ block `pub fn new_unnamed(temp_root: impl AsRef<Path>) -> io::Result<Self> {`
 //@ sig `fn new_unnamed(vx_fs: &mut FileSystem, temp_root: &PathBuf) -> (r: io::Result<SafeFileCreator>)`
+//@ rules crashfs.R20
 //@ optsubst `create_file(&temp_path)` => `create_file(vx_fs, &temp_path)` :: explicit file system
 //@ contract
         requires inv(*old(vx_fs)),
         ensures
-            /*@C19*/ inv(*final(vx_fs)),
+            /*@C19*/ inv_step(*old(vx_fs), *final(vx_fs)),
             match r {
                 Ok(c) => c.wf() && c.dest_path is None && c.writer is Some && c.written() == Seq::<u8>::empty()
                     && (final(vx_fs).files@ == old(vx_fs).files@ || final(vx_fs).files@ == old(vx_fs).files@.insert(c.temp_path, Seq::<u8>::empty())),
@@ -356,12 +378,13 @@ impl SafeFileCreator {
 //@ extract file_utils/src/safe_file_creator.rs in `impl Drop for SafeFileCreator` region drop
 //@ block `fn drop(&mut self) {`
 //@ sig `fn drop(&mut self, vx_fs: &mut FileSystem)`
+//@ rules crashfs.R20
 //@ optsubst `self.close()` => `self.close(vx_fs)` :: explicit file system
 //@ optsubst `fs::remove_file(&self.temp_path)` => `fs::remove_file(vx_fs, &self.temp_path)` :: explicit file system
 //@ optsubst `eprintln!("Error: Failed to close writer for {:?}: {}", &self.dest_path, e);` => `vx_log();` :: R3-like: message to stderr
 //@ contract
         requires inv(*old(vx_fs)), old(self).wf(),
-        ensures /*@C19*/ inv(*final(vx_fs)),
+        ensures /*@C19*/ inv_step(*old(vx_fs), *final(vx_fs)),
 //@ end
 }
 
@@ -375,7 +398,7 @@ impl SafeFileCreator {
     fn write_all(&mut self, vx_fs: &mut FileSystem, buf: &[u8]) -> (r: io::Result<()>)
         requires inv(*old(vx_fs)), old(self).wf(),
         ensures
-            inv(*final(vx_fs)),
+            inv_step(*old(vx_fs), *final(vx_fs)),
             final(self).wf(), final(self).dest_path == old(self).dest_path, final(self).temp_path == old(self).temp_path,
             final(self).writer is Some == old(self).writer is Some,
             final(vx_fs).files@ == old(vx_fs).files@
@@ -424,7 +447,7 @@ pub fn shard_file_name(hash: &MerkleHash) -> (r: String) ensures is_shard_name(r
 #[verifier::external_body]
 pub fn vx_open_create_truncate(fs: &mut FileSystem, path: &PathBuf) -> (r: io::Result<File>)
     requires inv(*old(fs)), is_final(*path) ==> consistent(*path, Seq::<u8>::empty()),
-    ensures inv(*final(fs)),
+    ensures inv_step(*old(fs), *final(fs)),
         r matches Ok(f) ==> f.path@ == *path && f.written@ == Seq::<u8>::empty() && final(fs).files@ == old(fs).files@.insert(*path, Seq::<u8>::empty()),
         r is Err ==> final(fs).files@ == old(fs).files@,
 { unimplemented!() }
@@ -447,11 +470,12 @@ impl HashedWrite {
 //@ extract merklehash/src/data_hash.rs in `impl<W: Write> Write for HashedWrite<W>` region write
 //@ block `fn write(&mut self, buf: &[u8]) -> std::io::Result<usize> {`
 //@ sig `fn write(&mut self, vx_fs: &mut FileSystem, buf: &[u8]) -> (r: io::Result<usize>)`
+//@ rules crashfs.R20
 //@ optsubst `self.writer.write(buf)` => `self.writer.write(vx_fs, buf)` :: explicit file system
 //@ contract
         requires inv(*old(vx_fs)), !is_final(old(self).writer.path@), hw_ok(*old(self)),
         ensures
-            inv(*final(vx_fs)), final(self).writer.path@ == old(self).writer.path@,
+            inv_step(*old(vx_fs), *final(vx_fs)), final(self).writer.path@ == old(self).writer.path@,
             // C19 (hash-named files): the hasher has seen exactly the bytes that went to the file
             /*@C19*/ hw_ok(*final(self)),
 //@ end
@@ -459,11 +483,12 @@ impl HashedWrite {
 //@ extract merklehash/src/data_hash.rs in `impl<W: Write> Write for HashedWrite<W>` region flush
 //@ block `fn flush(&mut self) -> std::io::Result<()> {`
 //@ sig `fn flush(&mut self, vx_fs: &mut FileSystem) -> (r: io::Result<()>)`
+//@ rules crashfs.R20
 //@ optsubst `self.writer.flush()` => `self.writer.flush(vx_fs)` :: explicit file system
 //@ contract
         requires inv(*old(vx_fs)), !is_final(old(self).writer.path@),
         ensures
-            inv(*final(vx_fs)), final(self).writer.path@ == old(self).writer.path@,
+            inv_step(*old(vx_fs), *final(vx_fs)), final(self).writer.path@ == old(self).writer.path@,
             final(self).hasher == old(self).hasher, final(self).writer.written@ == old(self).writer.written@,
             final(vx_fs).files@ == old(vx_fs).files@.insert(old(self).writer.path@, final(vx_fs).files@[old(self).writer.path@]),
             r is Ok ==> final(vx_fs).files@[old(self).writer.path@] == old(self).writer.written@,
@@ -474,7 +499,7 @@ pub trait Read { }
 #[verifier::external_body]
 pub fn vx_io_copy<R: Read>(fs: &mut FileSystem, reader: &mut R, w: &mut HashedWrite) -> (r: io::Result<u64>)
     requires inv(*old(fs)), !is_final(old(w).writer.path@), hw_ok(*old(w)),
-    ensures inv(*final(fs)), final(w).writer.path@ == old(w).writer.path@, hw_ok(*final(w)),
+    ensures inv_step(*old(fs), *final(fs)), final(w).writer.path@ == old(w).writer.path@, hw_ok(*final(w)),
         final(fs).files@ == old(fs).files@.insert(old(w).writer.path@, final(fs).files@[old(w).writer.path@]),
 { unimplemented!() }
 
@@ -483,6 +508,7 @@ pub fn vx_io_copy<R: Read>(fs: &mut FileSystem, reader: &mut R, w: &mut HashedWr
 //@ from `let mut hashed_write;`
 //@ to `std::fs::rename(&temp_file_name, &full_file_name)?;`
 //@ sig `fn shard_write_out_from_reader<R: Read>(vx_fs: &mut FileSystem, target_directory: &PathBuf, reader: &mut R) -> (r: io::Result<(MerkleHash, PathBuf)>)`
+//@ rules crashfs.R20
 //@ epilogue `Ok((shard_hash, full_file_name))`
 //@ optsubst `std::fs::OpenOptions::new() .write(true) .create(true) .truncate(true) .open(&temp_file_name)` => `vx_open_create_truncate(vx_fs, &temp_file_name)` :: R7 outline of the OpenOptions builder chain + explicit file system
 //@ optsubst `std::io::copy(reader, &mut hashed_write)` => `vx_io_copy(vx_fs, reader, &mut hashed_write)` :: explicit file system
@@ -491,7 +517,7 @@ pub fn vx_io_copy<R: Read>(fs: &mut FileSystem, reader: &mut R, w: &mut HashedWr
 //@ contract
     requires inv(*old(vx_fs)),
     ensures
-        /*@C19*/ inv(*final(vx_fs)),       // and, by the primitives' contracts, after every single operation on the way
+        /*@C19*/ inv_step(*old(vx_fs), *final(vx_fs)),       // and, by the primitives' contracts, after every single operation on the way
         r matches Ok(hp) ==> final(vx_fs).files@.contains_key(hp.1) && data_hash(final(vx_fs).files@[hp.1]) == hp.0,
 //@ body-start
     proof { broadcast use axiom_final_names_not_dotted, axiom_join_dotted, axiom_shard_consistent; }
@@ -504,7 +530,7 @@ impl MDBInMemoryShard {
     #[verifier::external_body]
     fn write_to_temp_shard_file(&self, vx_fs: &mut FileSystem, temp_file_name: &PathBuf) -> (r: io::Result<MerkleHash>)
         requires inv(*old(vx_fs)), !is_final(*temp_file_name),
-        ensures inv(*final(vx_fs)),
+        ensures inv_step(*old(vx_fs), *final(vx_fs)),
             final(vx_fs).files@ == old(vx_fs).files@ || final(vx_fs).files@ == old(vx_fs).files@.insert(*temp_file_name, final(vx_fs).files@[*temp_file_name]),
             r matches Ok(h) ==> final(vx_fs).files@.contains_key(*temp_file_name) && h == data_hash(final(vx_fs).files@[*temp_file_name]),
     { unimplemented!() }
@@ -513,12 +539,13 @@ impl MDBInMemoryShard {
 //@ from `let temp_file_name =`
 //@ to `std::fs::rename(&temp_file_name, &full_file_name)?;`
 //@ sig `fn write_to_directory(&self, vx_fs: &mut FileSystem, directory: &PathBuf) -> (r: io::Result<PathBuf>)`
+//@ rules crashfs.R20
 //@ epilogue `Ok(full_file_name)`
 //@ optsubst `self.write_to_temp_shard_file(&temp_file_name)` => `self.write_to_temp_shard_file(vx_fs, &temp_file_name)` :: explicit file system
 //@ optsubst `std::fs::rename(&temp_file_name, &full_file_name)` => `fs::rename(vx_fs, &temp_file_name, &full_file_name)` :: explicit file system
 //@ contract
         requires inv(*old(vx_fs)),
-        ensures /*@C19*/ inv(*final(vx_fs)),
+        ensures /*@C19*/ inv_step(*old(vx_fs), *final(vx_fs)),
 //@ body-start
         proof { broadcast use axiom_final_names_not_dotted, axiom_join_dotted, axiom_shard_consistent; }
 //@ end
@@ -529,6 +556,7 @@ impl MDBInMemoryShard {
 //@ from `let mut fw = SafeFileCreator::new(path)?;`
 //@ to `fw.close()?;`
 //@ sig `fn cache_put_write_file(vx_fs: &mut FileSystem, path: PathBuf, header_buf: Vec<u8>, data: &[u8]) -> (r: io::Result<()>)`
+//@ rules crashfs.R20
 //@ epilogue `Ok(())`
 //@ optsubst `SafeFileCreator::new(path)` => `SafeFileCreator::new(vx_fs, &path)` :: explicit file system
 //@ optsubst `fw.write_all(&header_buf)` => `fw.write_all(vx_fs, &header_buf)` :: explicit file system
@@ -539,7 +567,7 @@ impl MDBInMemoryShard {
         // the item name encodes length and crc of exactly header ++ data (U-CACHEPUT proves that for put_impl's cache_item)
         is_final(path) ==> consistent(path, header_buf@ + data@),
     ensures
-        /*@C19*/ inv(*final(vx_fs)),
+        /*@C19*/ inv_step(*old(vx_fs), *final(vx_fs)),
         r is Ok ==> final(vx_fs).files@.contains_key(path) && final(vx_fs).files@[path] == header_buf@ + data@,
 //@ before `fw.close(vx_fs)`
     proof { assert((Seq::<u8>::empty() + header_buf@) + data@ =~= header_buf@ + data@); }
@@ -557,7 +585,7 @@ impl CasObject {
                  compression_scheme: Option<CompressionScheme>) -> (r: io::Result<(CasObject, usize)>)
         requires inv(*old(vx_fs)), old(writer).wf(),
         ensures
-            inv(*final(vx_fs)),
+            inv_step(*old(vx_fs), *final(vx_fs)),
             final(writer).wf(), final(writer).dest_path == old(writer).dest_path, final(writer).temp_path == old(writer).temp_path,
             final(writer).writer is Some == old(writer).writer is Some,
             final(vx_fs).files@ == old(vx_fs).files@
@@ -573,6 +601,7 @@ impl Permissions {
 //@ from `let mut file = SafeFileCreator::new(&file_path)?;`
 //@ to `let _ = std::fs::set_permissions(&file_path, permissions); }`
 //@ sig `fn local_client_put_write(vx_fs: &mut FileSystem, file_path: PathBuf, hash: &MerkleHash, data: Vec<u8>, chunk_and_boundaries: Vec<(MerkleHash, u32)>) -> (r: io::Result<usize>)`
+//@ rules crashfs.R20
 //@ epilogue `Ok(bytes_written)`
 //@ optsubst `SafeFileCreator::new(&file_path)` => `SafeFileCreator::new(vx_fs, &file_path)` :: explicit file system
 //@ optsubst `CasObject::serialize( &mut file,` => `CasObject::serialize(vx_fs, &mut file,` :: explicit file system
@@ -584,7 +613,7 @@ impl Permissions {
     requires inv(*old(vx_fs)),
         // the caller passes the xorb's own hash (nothing in put or CasObject::serialize checks it)
         is_final(file_path) ==> consistent(file_path, xorb_bytes(*hash, data@, chunk_and_boundaries@)),
-    ensures /*@C19*/ inv(*final(vx_fs)),
+    ensures /*@C19*/ inv_step(*old(vx_fs), *final(vx_fs)),
 //@ before `file.close(vx_fs)`
     proof { assert(Seq::<u8>::empty() + xorb_bytes(*hash, data@, chunk_and_boundaries@) =~= xorb_bytes(*hash, data@, chunk_and_boundaries@)); }
 //@ end
